@@ -28,7 +28,7 @@ func (c18) Assumptions() []string {
 		"expression results are generated to have the field's own type (int, bool, string); ill-formed constraint names are out of scope (the validator panics on them by design)",
 	}
 }
-func (c18) NumCases(tier string) int      { return tierN(tier, 3000, 80000) }
+func (c18) NumCases(tier string) int      { return tierN(tier, 3000, 800000) }
 func (c18) MinNontrivial(tier string) int { return tierN(tier, 600, 6000) }
 
 var c18Validator = validator.New(validator.WithRequiredStructEnabled())
